@@ -103,7 +103,7 @@ func unmarshalPrimitive(dec *msgpack.Decoder, ty cty.Type, path cty.Path) (cty.V
 			return cty.NumberUIntVal(rv), nil
 		case msgpackCodes.Float, msgpackCodes.Double:
 			rv, err := dec.DecodeFloat64()
-			if err != nil {
+			if err != nil || rv != rv { // NaN is not a cty number
 				return cty.DynamicVal, path.NewErrorf("number is required")
 			}
 			return cty.NumberFloatVal(rv), nil
